@@ -22,6 +22,10 @@ class Unsupported(Exception):
     """Construct outside the interpreted subset -> exit status 3, never a violation."""
 
 
+class SpecNoneDeref(Unsupported):
+    """A specification reads an attribute of a value that is None on this path: the clause presumes a value there."""
+
+
 class AttachError(Exception):
     """A contract could not be attached to the code (renamed local, moved anchor ...)."""
 
